@@ -44,6 +44,11 @@ class CallMixin:
         for a in n.args:
             if isinstance(a, ast.Starred):
                 v = self.eval(a.value)
+                if isinstance(v, VList):
+                    # f(*xs) with a symbolic list: handed on as one opaque argument (an uninterpreted callee then returns
+                    # an unconstrained value; any other callee rejects it)
+                    args.append(v)
+                    continue
                 if not isinstance(v, (list, tuple)):
                     raise GenError("*args of symbolic length")
                 args.extend(v)
